@@ -98,6 +98,11 @@ func (g *Graph) AddJSON(js string) error {
 // Walks returns action sequences starting at init that together cover every edge reachable from init (or, with
 // keep < 1, a random fraction of the self-loop edges plus all others).  Each walk is at most maxLen long.
 func (g *Graph) Walks(init string, maxLen int, rng *rand.Rand, keepSelfLoops float64) (walks [][]json.RawMessage, covered int, unreachable int) {
+	return g.WalksN(init, maxLen, rng, keepSelfLoops, 0)
+}
+
+// WalksN is Walks limited to at most maxWalks walks (0 = until every edge is covered).
+func (g *Graph) WalksN(init string, maxLen int, rng *rand.Rand, keepSelfLoops float64, maxWalks int) (walks [][]json.RawMessage, covered int, unreachable int) {
 	// BFS distances / parents from init for shortest paths
 	type par struct {
 		e *Edge
@@ -151,7 +156,7 @@ func (g *Graph) Walks(init string, maxLen int, rng *rand.Rand, keepSelfLoops flo
 		}
 		return nil
 	}
-	for remaining > 0 {
+	for remaining > 0 && (maxWalks == 0 || len(walks) < maxWalks) {
 		var w []json.RawMessage
 		cur := init
 		for len(w) < maxLen {
